@@ -1,11 +1,49 @@
 import SageModel.Proto
+import SageModel.Drv.C01
+import SageModel.Drv.C02
+import SageModel.Drv.C03
+import SageModel.Drv.C04
+import SageModel.Drv.C05
+import SageModel.Drv.C06
+import SageModel.Drv.C07
+import SageModel.Drv.C08
+import SageModel.Drv.C09
+import SageModel.Drv.C10
+import SageModel.Drv.C11
 import SageModel.Drv.C12
+import SageModel.Drv.C13
+import SageModel.Drv.C14
+import SageModel.Drv.C15
+import SageModel.Drv.C16
+import SageModel.Drv.C17
+import SageModel.Drv.C18
+import SageModel.Drv.C19
+import SageModel.Drv.C20
 
 open Sage.Proto
 
 /-- dispatch table: every property's driver gets a chance at the op -/
 def handlers : List (String → List String → List String → Option Reply) :=
-  [ Sage.C12.handle ]
+  [ Sage.C01.handle,
+    Sage.C02.handle,
+    Sage.C03.handle,
+    Sage.C04.handle,
+    Sage.C05.handle,
+    Sage.C06.handle,
+    Sage.C07.handle,
+    Sage.C08.handle,
+    Sage.C09.handle,
+    Sage.C10.handle,
+    Sage.C11.handle,
+    Sage.C12.handle,
+    Sage.C13.handle,
+    Sage.C14.handle,
+    Sage.C15.handle,
+    Sage.C16.handle,
+    Sage.C17.handle,
+    Sage.C18.handle,
+    Sage.C19.handle,
+    Sage.C20.handle ]
 
 def handleLine (line : String) : String :=
   let (req, impl) :=
